@@ -2,7 +2,7 @@
    back as the printed model / UNSAT; a reply is reported as a result only if it carries the
    status line and (for a model) the terminating 0. *)
 From Coq Require Import ZifyBool Lia.
-From Crusta Require Import Sat.Cnf Sat.Dimacs Sat.Dpll Proofs.DimacsProofs.
+From Crusta Require Import Sat.Cnf Sat.Dimacs Sat.Dpll Model.SatSpec Proofs.DimacsProofs.
 Import ListNotations.
 Local Open Scope N_scope.
 
@@ -343,13 +343,6 @@ Proof.
   rewrite <- (app_nil_r (render_fill post)). rewrite (consume_fill _ post _ _ Hpost). reflexivity.
 Qed.
 
-(* the value lines without the terminating 0 (cut at a word boundary, for every split) *)
-Fixpoint render_v_cut (lay : layout) (ls : list lit) : bytes :=
-  match lay with
-  | [] => v_line ls false
-  | (fs, k) :: r => render_fill fs ++ v_line (firstn k ls) false ++ render_v_cut r (skipn k ls)
-  end.
-
 Lemma consume_render_v_cut : forall n lay ls st a sn rest,
   (Z.of_nat n <= isize_max)%Z -> layout_ok lay = true -> Forall (lit_in n) ls ->
   exists sn' a',
@@ -380,11 +373,6 @@ Proof.
 Qed.
 
 (* ------------------------------------------------------------------ C16b: what a result requires *)
-Definition lines_of (out : bytes) : list bytes := map rust_line (raw_lines out).
-(* some value line carries a word that reads as 0 *)
-Definition has_terminator (ls : list bytes) : Prop :=
-  exists ln tok, In ln ls /\ prefixb b_v_sp ln = true /\ In tok (tl (tokens ln)) /\ parse_isize tok = Some 0%Z.
-
 Definition rinv (n : nat) (seen : list bytes) (s : rstate) : Prop :=
   (st_status s = Some true -> In b_sat seen) /\
   (st_status s = Some false -> In b_unsat seen) /\
